@@ -446,6 +446,38 @@ func main() {
 			time.Sleep(8 * time.Second)
 		}
 
+	case "newshard":
+		// every point opens a new shard group (one per 30 days back); no fault before the kill
+		const month = 30 * 24 * 3600
+		n := 12
+		for i := 1; i <= n; i++ {
+			if !c.write(pt("g", -i*month, int64(i))) {
+				return
+			}
+		}
+		time.Sleep(3 * time.Second)
+		got, e := c.read()
+		logf("%d points acknowledged, each in a shard group of its own; read from the master: %s", n, summary(got, e))
+		for round := 0; round < 2; round++ {
+			cur, _ := c.meta()
+			k := cur.MasterIdx
+			logf("kill master store%d", k+1)
+			c.Stores[k].Kill()
+			m4 := c.waitMaster(k)
+			c.write(pt("b", round, 1))
+			got, e = c.read()
+			miss := 0
+			for i := 1; i <= n; i++ {
+				if _, ok := got[fmt.Sprintf("g@%d", T0-int64(i*month)*1_000_000_000)]; !ok {
+					miss++
+				}
+			}
+			logf("RESULT newshard: master store%d (never restarted): %d of %d acknowledged points missing (%s)", m4.MasterIdx+1, miss, n, summary(got, e))
+			_ = c.Stores[k].Start()
+			c.waitReady(k)
+			time.Sleep(8 * time.Second)
+		}
+
 	case "lww":
 		// no fault at all: overwrite across flush generations on every replica
 		K := func(v int64) string {
